@@ -144,6 +144,10 @@ type eventer2 struct {
 // leaseCtxCancelled: the next mock-level cases run with a context that is already cancelled
 var leaseCtxCancelled bool
 
+// leaseProvisionFirst: the next "create" cases call Provision() on the same manager first, with this outcome of the
+// container creation (not recorded): what CreatePartitions does must not depend on it
+var leaseProvisionFirst string
+
 // one case against one generation at the mock level
 // leaseCaseMock runs one call against in-package fakes.  prev >= 0 (kind "create" only): the same manager has
 // already served a CreatePartitions(prev) call whose uploads all failed; the call that is recorded must behave
@@ -156,6 +160,15 @@ func leaseCaseMockPrev(log *leaseLog, gen int, kind string, n int, index int, ou
 	log.f("case %d mock %s %d %d %s", gen, kind, n, index, strings.Join(outcomes, " "))
 	cont := &mockContainer{log: log, outcome: "ok"}
 	blob := &mockBlob{log: log, acquires: "ok"}
+	provisionFirst := func(call func()) {
+		if leaseProvisionFirst != "" && kind == "create" {
+			cont.outcome = leaseProvisionFirst
+			log.mute = true
+			call()
+			log.mute = false
+			log.f("note provisioned-first %s", leaseProvisionFirst)
+		}
+	}
 	warm := func(call func()) {
 		if prev >= 0 && kind == "create" {
 			blob.uploads = []string{"ServerBusy"}
@@ -191,6 +204,7 @@ func leaseCaseMockPrev(log *leaseLog, gen int, kind string, n int, index int, ou
 			err := m.Provision(ctx)
 			log.f("ret %d", b2i(err == nil))
 		case "create":
+			provisionFirst(func() { m.Provision(ctx) })
 			warm(func() { m.CreatePartitions(ctx, prev) })
 			err := m.CreatePartitions(ctx, n)
 			log.f("ret %d", b2i(err == nil))
@@ -208,6 +222,7 @@ func leaseCaseMockPrev(log *leaseLog, gen int, kind string, n int, index int, ou
 			err := m.Provision(ctx)
 			log.f("ret %d", b2i(err == nil))
 		case "create":
+			provisionFirst(func() { m.Provision(ctx) })
 			warm(func() { m.CreatePartitions(ctx, prev) })
 			m.CreatePartitions(ctx, n)
 			log.f("ret 1")
@@ -347,6 +362,14 @@ func RunLease(t *testing.T, seed int64, thorough bool, out io.Writer) {
 			leaseCaseMock(log, gen, "create", 2, 0, []string{o, o})
 		}
 		leaseCtxCancelled = false
+		// CreatePartitions after Provision on the same manager, whatever the container creation said
+		for _, po := range []string{"ok", "ContainerAlreadyExists", "other"} {
+			leaseProvisionFirst = po
+			leaseCaseMock(log, gen, "create", 3, 0, []string{"ok", "ok", "ok"})
+			leaseCaseMock(log, gen, "create", 4, 0, []string{"BlobAlreadyExists", "ok", "other", "ok"})
+			leaseCaseMock(log, gen, "create", 2, 0, []string{"LeaseIdMissing", "ServerBusy"})
+		}
+		leaseProvisionFirst = ""
 		// every position of runs with n <= 4 (exhaustive over a small alphabet incl. the interesting codes)
 		alpha := []string{"ok", "BlobAlreadyExists", "LeaseIdMissing", "other", "ServerBusy", "LeaseAlreadyPresent"}
 		maxn := 3
